@@ -78,6 +78,18 @@ def pad(cases):
     return [(list(xs) + [NAN] * (M - len(xs)), y) for xs, y in cases]
 
 
+def kernel_form(valid, y, meth):
+    """(1/m) sum|x_i - y| - (1/(2K)) sum sum|x_i - x_j|, K = m^2 (ecdf) or m(m-1) (fair), over the valid members"""
+    if not valid or isnan(y):
+        return NAN
+    m = len(valid)
+    if meth == "fair" and m == 1:
+        return NAN
+    S = sum((abs(x - y) for x in valid), Fraction(0))
+    Pp = sum((abs(a - b) for a in valid for b in valid), Fraction(0))
+    return S / m - Pp / (2 * (m * m if meth == "ecdf" else m * (m - 1)))
+
+
 def batch_arrays(cases):
     """cases: list of (members list (NaN padded to a common length), obs) -> fcst[case, m], obs[case]"""
     M = max(len(c[0]) for c in cases)
@@ -98,6 +110,10 @@ def same(a, b, tol=1e-9):
 # ---------------------------------------------------------------------------------------------------
 # (a) per-case level
 # ---------------------------------------------------------------------------------------------------
+def has_model(ctx):
+    return not getattr(ctx, "no_model", False)
+
+
 def case_level(ctx, cases, tag):
     p = P()
     cases = pad(cases)
@@ -106,13 +122,16 @@ def case_level(ctx, cases, tag):
         impl = p.crps_for_ensemble(fc, ob, "m", method=meth, preserve_dims="all", include_components=True)
         iv = {c: impl.sel(component=c).values for c in COMPONENTS}
         for i, (xs, y) in enumerate(cases):
-            tot, und, ovr, spr, spec = core.dec_nums(ctx.model("c06_case", enc_list([enc_nums(xs), enc_num(y), enc_str(meth)])))
             got = [iv[c][i] for c in COMPONENTS]
             desc = {"fn": "crps_for_ensemble", "members": xs, "obs": y, "method": meth}
             valid = [x for x in xs if not isnan(x)]
             ctx.case((tag, meth, tuple(map(str, xs)), str(y)), nontrivial=bool(valid) and not isnan(y))
-            if not core.close_list(got, [tot, und, ovr, spr]):
-                ctx.tie_fail("crps_for_ensemble (one case, components) vs model", desc, [float(g) for g in got], [str(v) for v in (tot, und, ovr, spr)])
+            if has_model(ctx):
+                tot, und, ovr, spr, spec = core.dec_nums(ctx.model("c06_case", enc_list([enc_nums(xs), enc_num(y), enc_str(meth)])))
+                if not core.close_list(got, [tot, und, ovr, spr]):
+                    ctx.tie_fail("crps_for_ensemble (one case, components) vs model", desc, [float(g) for g in got], [str(v) for v in (tot, und, ovr, spr)])
+            else:
+                spec = kernel_form(valid, y, meth)      # the same specification, evaluated by the harness in exact rationals
             # value = proved specification (kernel form over the valid members)
             if not core.close(got[0], spec):
                 ctx.violation("crps_for_ensemble differs from the kernel form over the non-missing members", desc, spec, float(got[0]))
@@ -153,7 +172,7 @@ def rand_case(rng, maxm=6, grid=GRID):
     return xs, y
 
 
-def tw_level(ctx, cases, tag):
+def tw_level(ctx, cases, tag, fixed=None):
     """lower tail + interval + upper tail = unweighted, per case, scalar and per-case thresholds (implementation and model)"""
     p = P()
     cases = pad(cases)
@@ -163,7 +182,16 @@ def tw_level(ctx, cases, tag):
     for meth in ("ecdf", "fair"):
         plain = p.crps_for_ensemble(fc, ob, "m", method=meth, preserve_dims="all").values
         for kind in ("scalar", "array"):
-            if kind == "scalar":
+            if fixed is not None:
+                if kind != fixed[2]:
+                    continue
+                los, his = [fixed[0]] * n, [fixed[1]] * n
+                if kind == "scalar":
+                    tlo, thi = float(fixed[0]), float(fixed[1])
+                else:
+                    tlo = xr.DataArray([float(v) for v in los], dims=["case"])
+                    thi = xr.DataArray([float(v) for v in his], dims=["case"])
+            elif kind == "scalar":
                 lo, hi = sorted(rng.sample(GRID, 2))
                 los, his = [lo] * n, [hi] * n
                 tlo, thi = float(lo), float(hi)
@@ -187,6 +215,8 @@ def tw_level(ctx, cases, tag):
                 ctx.case((tag, kind, meth, tuple(map(str, xs)), str(y), str(los[i]), str(his[i])), nontrivial=not np.isnan(plain[i]))
                 if not ok[i]:
                     ctx.violation("lower tail + interval + upper tail != unweighted CRPS", desc, float(plain[i]), float(low[i] + mid[i] + upp[i]))
+                if not has_model(ctx):
+                    continue
                 m4 = core.dec_nums(ctx.model("c06_tw_case", enc_list([enc_nums(xs), enc_num(y), enc_num(los[i]), enc_num(his[i]), enc_str(meth)])))
                 if not core.close_list([low[i], mid[i], upp[i], plain[i]], m4):
                     ctx.tie_fail("tail / interval / tail / plain (one case) vs model", desc, [float(low[i]), float(mid[i]), float(upp[i]), float(plain[i])],
@@ -218,7 +248,7 @@ def brier_level(ctx, cases, tag):
             if not same(integ[i], ref[i]):
                 ctx.violation("threshold integral of the ensemble Brier score != CRPS", desc, float(ref[i]), float(integ[i]))
         # the one-cell Brier model used by the theorem, against the implementation (a few thresholds incl. ties)
-        for i in ctx.rng.sample(range(len(cases)), min(len(cases), 12)):
+        for i in ctx.rng.sample(range(len(cases)), min(len(cases), 12) if has_model(ctx) else 0):
             xs, y = cases[i]
             j = ctx.rng.randrange(len(mids))
             mv = core.dec_num(ctx.model("c06_brier_cell", enc_list([enc_nums(xs), enc_num(y), enc_num(mids[j]), enc_bool(fair)])))
@@ -226,7 +256,7 @@ def brier_level(ctx, cases, tag):
                 ctx.tie_fail("brier_score_for_ensemble cell vs model", {"members": xs, "obs": y, "threshold": mids[j], "fair": fair}, float(bs[i, j]), str(mv))
     # thresholds equal to members / obs (ties), model only vs implementation
     tie_t = [float(t) for t in pts]
-    for fair in (False, True):
+    for fair in ((False, True) if has_model(ctx) else ()):
         bs = p.brier_score_for_ensemble(fc, ob, "m", tie_t, fair_correction=fair, preserve_dims="all").transpose("case", "threshold").values
         for i in ctx.rng.sample(range(len(cases)), min(len(cases), 12)):
             xs, y = cases[i]
@@ -280,7 +310,7 @@ def rand_threshold(rng, sizes, data_dims, scalar_p=0.5, lo=None, top=True):
     dims = [d for d in data_dims if rng.random() < 0.6]
     sz = dict(sizes)
     if rng.random() < 0.12:
-        sz["t"] = rng.randint(1, 2)
+        sz.setdefault("t", 2)      # one size per case (set by gen_full): thresholds must carry identical label sets
         dims = dims + ["t"]
     vals = [float(v) for v in cand]
     return gens.rand_da(rng, sz, dims=dims, values=vals, nan_p=0.1 if rng.random() < 0.15 else 0.0)
@@ -293,6 +323,7 @@ def gen_full(ctx):
     data = rng.sample(names, rng.randint(0, 2))
     sizes = {d: rng.randint(1, 3) for d in data}
     sizes[ens] = rng.randint(1, 6)
+    sizes["t"] = rng.randint(1, 2)
     fdims = [d for d in data if rng.random() < 0.9] + [ens]
     odims = [d for d in data if rng.random() < 0.75]
     bad = rng.random() < 0.12
@@ -429,34 +460,37 @@ def corpus(ctx):
     ctx.count("corpus", len(calls))
 
 
+def check_full(ctx, c, first=False):
+    impl = call_full(c)
+    arg = enc_list([enc_arr(c["fcst"]), enc_arr(c["obs"]), enc_str(c["ens"]), enc_mode(c["mode"]), enc_str(c["method"]),
+                    enc_dimspec(c["rd"]), enc_dimspec(c["pd"]), enc_opt(c["w"], enc_arr), enc_bool(c["comps"])])
+    tree = ctx.model("c06_crps", arg)
+    ok, why = compare_full(impl, tree, c["comps"])
+    desc = describe(c)
+    nontrivial = impl[0] == "ok" and bool(np.isfinite(np.asarray(impl[1], dtype=float)).any())
+    ctx.case(desc, nontrivial)
+    ctx.count("full:" + c["mode"]["kind"])
+    ctx.count("full:" + ("ok" if impl[0] == "ok" else impl[1]))
+    ctx.count("full:method=" + c["method"])
+    if c["comps"]:
+        ctx.count("full:components")
+    if c["w"] is not None:
+        ctx.count("full:weights")
+    for k in ("t", "lo", "hi"):
+        if k in c["mode"]:
+            ctx.count("full:threshold=" + ("array" if isinstance(c["mode"][k], xr.DataArray) else "scalar"))
+    ctx.count("full:spelling=" + ("none" if c["rd"] is None and c["pd"] is None else type(c["rd"] if c["rd"] is not None else c["pd"]).__name__))
+    if first:
+        ctx.sample(desc)
+    if not ok:
+        ctx.tie_fail("public function vs model: " + why, desc, str(impl[1])[:300], str(tree)[:300])
+
+
 def full_level(ctx, n):
     for i in range(n):
         if not ctx.time_left():
             break
-        c = gen_full(ctx)
-        impl = call_full(c)
-        arg = enc_list([enc_arr(c["fcst"]), enc_arr(c["obs"]), enc_str(c["ens"]), enc_mode(c["mode"]), enc_str(c["method"]),
-                        enc_dimspec(c["rd"]), enc_dimspec(c["pd"]), enc_opt(c["w"], enc_arr), enc_bool(c["comps"])])
-        tree = ctx.model("c06_crps", arg)
-        ok, why = compare_full(impl, tree, c["comps"])
-        desc = describe(c)
-        nontrivial = impl[0] == "ok" and bool(np.isfinite(np.asarray(impl[1], dtype=float)).any())
-        ctx.case(desc, nontrivial)
-        ctx.count("full:" + c["mode"]["kind"])
-        ctx.count("full:" + ("ok" if impl[0] == "ok" else impl[1]))
-        ctx.count("full:method=" + c["method"])
-        if c["comps"]:
-            ctx.count("full:components")
-        if c["w"] is not None:
-            ctx.count("full:weights")
-        for k in ("t", "lo", "hi"):
-            if k in c["mode"]:
-                ctx.count("full:threshold=" + ("array" if isinstance(c["mode"][k], xr.DataArray) else "scalar"))
-        ctx.count("full:spelling=" + ("none" if c["rd"] is None and c["pd"] is None else type(c["rd"] if c["rd"] is not None else c["pd"]).__name__))
-        if i < 2:
-            ctx.sample(desc)
-        if not ok:
-            ctx.tie_fail("public function vs model: " + why, desc, str(impl[1])[:300], str(tree)[:300])
+        check_full(ctx, gen_full(ctx), first=i < 2)
 
 
 def additivity_full(ctx, n):
@@ -610,23 +644,74 @@ def sort_labels(x):
     return x
 
 
-def exhaustive_cases():
+def unj(v):
+    """value from a replay file: fractions and nan were written as strings"""
+    if isinstance(v, str):
+        return NAN if v == "nan" else Fraction(v)
+    if isinstance(v, list):
+        return [unj(x) for x in v]
+    if isinstance(v, float) and v == v and float(v).is_integer():
+        return Fraction(int(v))
+    if isinstance(v, float) and v == v:
+        return Fraction(v)
+    return v
+
+
+def replay(ctx, obj):
+    """re-evaluate the predicate / correspondence of a recorded failing input (./check C06 --replay <file>)"""
+    items = [obj["violation"]] if "violation" in obj else list(obj.get("no_longer_checks", {}).get("correspondence", []))
+    for v in items:
+        case = v.get("case", {})
+        fn = case.get("fn")
+        if "members" in case:
+            xs, y = unj(case["members"]), unj(case["obs"])
+            if fn == "tail/interval/tail":
+                tw_level(ctx, [(xs, y)], "replay", fixed=(unj(case["lower_threshold"]), unj(case["upper_threshold"]), case.get("thresholds", "scalar")))
+            elif fn == "brier_score_for_ensemble integral":
+                brier_level(ctx, [(xs, y)], "replay")
+            else:
+                case_level(ctx, [(xs, y)], "replay")
+                invariance_level(ctx, [(xs, y)], "replay")
+        elif fn == "interval_tw_crps_for_ensemble" and "thresholds" in case:
+            guard_level(ctx)
+        elif "fcst" in case and "mode" in case:
+            mode = dict(case["mode"])
+            for k in ("t", "lo", "hi"):
+                if k in mode:
+                    mode[k] = gens.da_from_repr(mode[k]) if isinstance(mode[k], dict) else unj(mode[k])
+            w = case.get("weights")
+            c = dict(fcst=gens.da_from_repr(case["fcst"]), obs=gens.da_from_repr(case["obs"]), ens=case["ensemble_member_dim"], mode=mode,
+                     method=case["method"], rd=case.get("reduce_dims"), pd=case.get("preserve_dims"),
+                     w=gens.da_from_repr(w) if isinstance(w, dict) else None, comps=bool(case.get("include_components")))
+            check_full(ctx, c)
+        else:
+            corpus(ctx)
+
+
+def exhaustive_cases(maxm=3):
     vals = SMALL + [NAN]
     out = []
-    for m in (1, 2, 3):
+    for m in range(1, maxm + 1):
         for xs in itertools.product(vals, repeat=m):
             for y in vals:
                 out.append((list(xs), y))
     return out
 
 
+def run_without_model(ctx):
+    """the extracted model does not build (a site no longer translates): the predicates that relate public calls to each other
+    and to the harness' own exact-rational oracles still run and look for a concrete failing input"""
+    ctx.no_model = True
+    run(ctx)
+
+
 def run(ctx):
     rng = ctx.rng
-    ex = exhaustive_cases()
+    ex = exhaustive_cases(4 if ctx.tier == "thorough" else 3)
     ctx.exhaustive = True
     for i in range(0, len(ex), 400):
         case_level(ctx, ex[i:i + 400], "sweep")
-    nr = ctx.n(300, 6000)
+    nr = ctx.n(300, 12000)
     rc = [rand_case(rng) for _ in range(nr)]
     for i in range(0, nr, 300):
         if not ctx.time_left():
@@ -638,9 +723,10 @@ def run(ctx):
         for j in range(0, len(chunk), 30):
             brier_level(ctx, chunk[j:j + 30], "brier-integral")
     tw_level(ctx, [c for c in ex if len(c[0]) >= 2][:: (7 if ctx.tier == "quick" else 1)], "tw-sweep")
-    full_level(ctx, ctx.n(350, 6000))
-    additivity_full(ctx, ctx.n(60, 1200))
-    reduction_level(ctx, ctx.n(80, 1500))
+    if has_model(ctx):
+        full_level(ctx, ctx.n(350, 12000))
+    additivity_full(ctx, ctx.n(60, 2500))
+    reduction_level(ctx, ctx.n(80, 3000))
     guard_level(ctx)
     corpus(ctx)
     ctx.sample({"theorem": "C06_crps_ecdf_is_integral", "meaning": "kernel form = integral of (F_ens - 1{y<=t})^2 for every ensemble"})
